@@ -1,4 +1,4 @@
-import Proofs.Chain
+import Proofs.NonInterference
 /-
   C09 — Restart independence.
   The only consensus input the daemon keeps in memory is the rolling-average cache. The full
@@ -66,6 +66,37 @@ theorem not_restart_independent :
   rw [this] at w
   omega
 
+/-! ### what does hold for whole runs (Proofs/AvgIrrelevant, Proofs/NonInterference) -/
+
+/-- Below the PIP-10 activation `Convert` ignores the averages, so the outcome of a block does
+    not depend on the in-memory cache at all: two processes on the same database apply it with
+    the same result whatever their histories. -/
+theorem block_independent_of_cache_below_pip10 (P : Params) (n₁ n₂ : Node) (b : Block) (hdb : n₁.db = n₂.db)
+    (hlt : b.height < P.act.pip10) :
+    (applyBlock P n₁ b).1.db = (applyBlock P n₂ b).1.db ∧ (applyBlock P n₁ b).2 = (applyBlock P n₂ b).2 :=
+  applyBlock_cache_irrelevant n₁ n₂ b hdb hlt
+
+/-- **`restart_independent_partial`**: for every run of the daemon that stays below the PIP-10
+    activation, stopping and starting it any number of times, anywhere, changes nothing: the
+    ledger and the sync height are those of the run without the restarts (and without the aborted
+    iterations). Above PIP-10 the statement is false — `not_restart_independent`. -/
+theorem restart_independent_partial (P : Params) (ch : Nat → Block) (hch : ∀ h, (ch h).height = h)
+    (es : List Ev) (hb : BelowPip10 P ch (freshNode P) es) :
+    (runEvs P ch (freshNode P) es).db.ledger = (runEvs P ch (freshNode P) (es.filter Ev.isAttempt)).db.ledger ∧
+    (runEvs P ch (freshNode P) es).mem = (runEvs P ch (freshNode P) (es.filter Ev.isAttempt)).mem :=
+  only_attempts_matter P ch hch (freshNode P).mem es (freshNode P) (freshNode P) [] rfl rfl
+    (inOrder_fresh P) (inOrder_fresh P) hb
+
+/-- the same from any consistent database being resumed -/
+theorem restart_independent_partial_from (P : Params) (ch : Nat → Block) (hch : ∀ h, (ch h).height = h)
+    (n₀ : Node) (h0 : InOrder P n₀.mem n₀) (es : List Ev) (hb : BelowPip10 P ch n₀ es) :
+    (runEvs P ch n₀ es).db.ledger = (runEvs P ch n₀ (es.filter Ev.isAttempt)).db.ledger ∧
+    (runEvs P ch n₀ es).mem = (runEvs P ch n₀ (es.filter Ev.isAttempt)).mem :=
+  only_attempts_matter P ch hch n₀.mem es n₀ n₀ n₀.db.syncVersions rfl rfl h0 h0 hb
+
+/-- a restart keeps every ledger table and re-derives the sync height from the database -/
+theorem restart_keeps_ledger (P : Params) (n : Node) : (restart P n).db.ledger = n.db.ledger := rfl
+
 end Pegnet.C09
 
 #print axioms Pegnet.C09.reload_is_function_of_db
@@ -73,3 +104,7 @@ end Pegnet.C09
 #print axioms Pegnet.C09.restart_keeps_database
 #print axioms Pegnet.C09.restart_dependent_witness
 #print axioms Pegnet.C09.not_restart_independent
+#print axioms Pegnet.C09.block_independent_of_cache_below_pip10
+#print axioms Pegnet.C09.restart_independent_partial
+#print axioms Pegnet.C09.restart_independent_partial_from
+#print axioms Pegnet.C09.restart_keeps_ledger
